@@ -127,3 +127,142 @@ def emit_all(emit):
         for k in (1, 2):
             grids.append((n, m, k, blocking(cb.ExtrudedStack(cb.Grid([0, 0, 0], [1, 1, 0], n, m), 1.0, k))))
     emit("c11GridProbes", "List (Nat × Nat × Nat × List (List Nat))", grids, "ExtrudedStack(Grid(n, m), k): (n, m, k, blocking)")
+
+    for name, typ, val, doc in disk_generator_tables():
+        emit(name, typ, val, doc)
+
+
+# ----------------------------------------------------------------------------- point generators (round 6)
+DISK_CLASSES = ("OneCoreDisk", "QuarterDisk", "HalfDisk", "FourCoreDisk", "WrappedDisk", "Oval")
+
+
+class _Q2:
+    """a + b*sqrt(2) with rational a, b (exact evaluation of `diagonal_ratio`)"""
+
+    def __init__(self, a, b=0):
+        from fractions import Fraction
+
+        self.a, self.b = Fraction(a), Fraction(b)
+
+    def __mul__(self, o):
+        return _Q2(self.a * o.a + 2 * self.b * o.b, self.a * o.b + self.b * o.a)
+
+    def __truediv__(self, o):
+        n = o.a * o.a - 2 * o.b * o.b
+        return self * _Q2(o.a / n, -o.b / n)
+
+    def __add__(self, o):
+        return _Q2(self.a + o.a, self.b + o.b)
+
+    def __sub__(self, o):
+        return _Q2(self.a - o.a, self.b - o.b)
+
+
+def disk_generator_tables():
+    """What `construct/flat/sketches/disk.py` states literally about its point generators, read with `ast`:
+    core_ratio, diagonal_ratio (evaluated exactly in Q[sqrt 2] from the property's return expression), and per
+    class the `np.linspace` arguments of `angles`, the `ratios` list and the layout of the positions list."""
+    import ast
+    import inspect
+    from fractions import Fraction
+
+    from classy_blocks.construct.flat.sketches import disk as d
+
+    tree = ast.parse(inspect.getsource(d))
+    classes = {n.name: n for n in tree.body if isinstance(n, ast.ClassDef)}
+
+    def lit(node) -> Fraction:
+        assert isinstance(node, ast.Constant) and isinstance(node.value, (int, float)), ast.dump(node)
+        return Fraction(repr(node.value))
+
+    base = classes["DiskBase"]
+    consts = {}
+    for st in base.body:
+        if isinstance(st, ast.Assign) and isinstance(st.targets[0], ast.Name):
+            nm = st.targets[0].id
+            if nm == "core_ratio":
+                consts["core_ratio"] = lit(st.value)
+            if nm == "spline_ratios":
+                consts["spline_ratios"] = [lit(e) for e in st.value.elts]
+    diag_fn = next(st for st in base.body if isinstance(st, ast.FunctionDef) and st.name == "diagonal_ratio")
+    ret = next(st for st in diag_fn.body if isinstance(st, ast.Return)).value
+
+    def ev(node) -> _Q2:
+        if isinstance(node, ast.BinOp):
+            if isinstance(node.op, ast.Pow):
+                # only 2**0.5
+                assert lit(node.left) == 2 and lit(node.right) == Fraction(1, 2), ast.dump(node)
+                return _Q2(0, 1)
+            l, r = ev(node.left), ev(node.right)
+            if isinstance(node.op, ast.Mult):
+                return l * r
+            if isinstance(node.op, ast.Div):
+                return l / r
+            if isinstance(node.op, ast.Add):
+                return l + r
+            if isinstance(node.op, ast.Sub):
+                return l - r
+        if isinstance(node, ast.Constant):
+            return _Q2(lit(node))
+        if isinstance(node, ast.Attribute) and isinstance(node.value, ast.Name) and node.value.id == "self":
+            return _Q2(consts[node.attr])
+        if isinstance(node, ast.Subscript) and isinstance(node.value, ast.Attribute) and node.value.attr == "spline_ratios":
+            return _Q2(consts["spline_ratios"][int(lit(node.slice))])
+        raise AssertionError("diagonal_ratio: unexpected expression " + ast.dump(node))
+
+    diag = ev(ret)
+
+    def nd(q: Fraction):
+        assert q >= 0
+        return (q.numerator, q.denominator)
+
+    def pi_units(node) -> Fraction:
+        """value of an expression in np.pi, in units of pi/4"""
+        if isinstance(node, ast.Attribute) and node.attr == "pi":
+            return Fraction(4)
+        if isinstance(node, ast.BinOp) and isinstance(node.op, ast.Mult):
+            return (lit(node.left) * pi_units(node.right)) if isinstance(node.left, ast.Constant) else (pi_units(node.left) * lit(node.right))
+        if isinstance(node, ast.BinOp) and isinstance(node.op, ast.Div):
+            return pi_units(node.left) / lit(node.right)
+        raise AssertionError("linspace stop: unexpected expression " + ast.dump(node))
+
+    def describe(elt) -> str:
+        star = isinstance(elt, ast.Starred)
+        v = elt.value if star else elt
+        if isinstance(v, ast.Call) and isinstance(v.func, ast.Attribute):
+            owner = v.func.value.id if isinstance(v.func.value, ast.Name) else "?"
+            args = ",".join(ast.unparse(a) for a in v.args)
+            s = f"{owner}.{v.func.attr}({args})"
+        else:
+            s = ast.unparse(v)
+        return ("*" if star else "") + s
+
+    gens = []
+    for cname in DISK_CLASSES:
+        init = next(st for st in classes[cname].body if isinstance(st, ast.FunctionDef) and st.name == "__init__")
+        lin, ratios, layout = None, [], []
+        for st in ast.walk(init):
+            if isinstance(st, ast.Assign) and isinstance(st.targets[0], ast.Name):
+                nm = st.targets[0].id
+                if nm == "angles":
+                    call = st.value
+                    assert isinstance(call, ast.Call) and call.func.attr == "linspace" and lit(call.args[0]) == 0
+                    kw = {k.arg: k.value for k in call.keywords}
+                    stop = pi_units(call.args[1])
+                    assert stop.denominator == 1
+                    endpoint = bool(kw["endpoint"].value) if "endpoint" in kw else True
+                    lin = (int(stop), int(lit(kw["num"])), endpoint)
+                elif nm == "ratios":
+                    ratios = [ast.unparse(e).replace("self.", "") for e in st.value.elts]
+                elif nm == "locations":
+                    layout = [describe(e) for e in st.value.elts]
+            if isinstance(st, ast.Call) and isinstance(st.func, ast.Attribute) and st.func.attr == "__init__" and st.args and isinstance(st.args[0], ast.List):
+                layout = [describe(e) for e in st.args[0].elts]
+        assert lin is not None and layout, cname
+        gens.append((cname, lin, ratios, layout))
+    return [
+        ("c11DiskConst", "(Nat × Nat) × (Nat × Nat) × (Nat × Nat)", (nd(consts["core_ratio"]), nd(diag.a), nd(diag.b)),
+         "DiskBase.core_ratio as n/d, and DiskBase.diagonal_ratio = a + b*sqrt(2) evaluated exactly from the property's return expression (a, b as n/d)"),
+        ("c11DiskGen", "List (String × (Nat × Nat × Bool) × List String × List String)", gens,
+         "disk sketch class: (name, np.linspace(0, stop*pi/4, num, endpoint) of `angles`, the `ratios` list, layout of the positions list handed to MappedSketch)"),
+    ]
